@@ -18,7 +18,9 @@ package main
 
 import (
 	"fmt"
+	"math"
 	"math/rand"
+	"strconv"
 	"strings"
 )
 
@@ -229,6 +231,11 @@ func c15SetBind(q *gProg, k int, bind, exp string) bool {
 // literal in every call of that stage.  Returns the program, the index of one of those calls among
 // the reachable calls, the parameter, its type and the literal tree bound there.
 func c15LiteralBase(rng *rand.Rand, p *gProg) (base *gProg, call int, bind, t string, tree *c15Lit, ok bool) {
+	return c15LiteralBaseOf(rng, p, c15LitTypes, func(rng *rand.Rand, t string) *c15Lit { return c15GenLit(rng, t, 1) })
+}
+
+// c15LiteralBaseOf: the parameter is re-typed to one of `types` and bound to gen(type).
+func c15LiteralBaseOf(rng *rand.Rand, p *gProg, types []string, gen func(*rand.Rand, string) *c15Lit) (base *gProg, call int, bind, t string, tree *c15Lit, ok bool) {
 	base = p.clone()
 	stages := c15Stages(base, true)
 	if len(stages) == 0 {
@@ -264,14 +271,14 @@ func c15LiteralBase(rng *rand.Rand, p *gProg) (base *gProg, call int, bind, t st
 		if !usable || !any {
 			continue
 		}
-		t = c15LitTypes[rng.Intn(len(c15LitTypes))]
+		t = types[rng.Intn(len(types))]
 		st.Ins[pi].Type = t
 		call = -1
 		for k, cl := range cs {
 			if cl.Callee != st.Name {
 				continue
 			}
-			lit := c15GenLit(rng, t, 1)
+			lit := gen(rng, t)
 			for i := range cl.Binds {
 				if cl.Binds[i].Id == name {
 					cl.Binds[i].Exp = lit.String()
@@ -369,4 +376,128 @@ func c15SplitLiteralPair(c *Ctx, p *gProg, newDir func() string) *c15Pair {
 	}
 	c.Res.hist("edit-not-applicable:literal-below-split")
 	return nil
+}
+
+// ---- numeric literals at the boundaries of the number representation -------------------------
+//
+// An integer argument of large magnitude (>= 2^53, 1e15, 1e18, 64-bit seeds; both signs) or a float
+// is changed to a NEARBY value: integers by +-1 .. +-5000, floats by 16 units in the last place (well
+// outside the documented 1e-15 tolerance, F18).  Directly bound, or inside an array / typed map.
+// Ground truth: semantic - the stage receives a different number.
+
+var c15NumTypes = []string{"int", "int", "int[]", "map<int>", "int[][]", "float", "float[]"}
+
+var c15BigInts = []int64{9007199254740991, 9007199254740992, 9007199254740993, 1000000000000000, 999999999999999,
+	1000000000000000000, 6364136223846793005, 4611686018427387904, 123456789012345678, 72057594037927936, 1 << 40, 7}
+
+func c15GenNum(rng *rand.Rand, t string) *c15Lit {
+	switch {
+	case strings.HasSuffix(t, "[]"):
+		n := &c15Lit{kind: 'a'}
+		for i, k := 0, 1+rng.Intn(3); i < k; i++ {
+			n.elems = append(n.elems, c15GenNum(rng, c15ElemType(t)))
+		}
+		return n
+	case strings.HasPrefix(t, "map<"):
+		n := &c15Lit{kind: 'm'}
+		for i, k := 0, 1+rng.Intn(3); i < k; i++ {
+			c15LitKeyN++
+			n.keys = append(n.keys, fmt.Sprintf("k%d", c15LitKeyN))
+			n.elems = append(n.elems, c15GenNum(rng, c15ElemType(t)))
+		}
+		return n
+	case t == "float":
+		v := []float64{0.1, 1.5e-7, 6.02e23, 1234.5678, 3.0000000000000004, 1e15 + 0.5}[rng.Intn(6)]
+		if rng.Intn(2) == 0 {
+			v = -v
+		}
+		return &c15Lit{kind: 's', text: strconv.FormatFloat(v, 'g', -1, 64)}
+	}
+	v := c15BigInts[rng.Intn(len(c15BigInts))]
+	if rng.Intn(3) == 0 {
+		v = -v
+	}
+	return &c15Lit{kind: 's', text: fmt.Sprint(v)}
+}
+
+func (n *c15Lit) scalars(out *[]*c15Lit) {
+	if n.kind == 's' {
+		*out = append(*out, n)
+		return
+	}
+	for _, e := range n.elems {
+		e.scalars(out)
+	}
+}
+
+// c15Nearby returns a nearby, different number literal.
+func c15Nearby(rng *rand.Rand, text string) (string, bool) {
+	if v, err := strconv.ParseInt(text, 10, 64); err == nil {
+		d := int64([]int{1, 1, 2, 3, 17, 1000, 5000}[rng.Intn(7)])
+		if rng.Intn(2) == 0 {
+			d = -d
+		}
+		return fmt.Sprint(v + d), true
+	}
+	if v, err := strconv.ParseFloat(text, 64); err == nil {
+		w := math.Float64frombits(math.Float64bits(v) + 16)
+		if rng.Intn(2) == 0 {
+			w = math.Float64frombits(math.Float64bits(v) - 16)
+		}
+		nt := strconv.FormatFloat(w, 'g', -1, 64)
+		if !strings.ContainsAny(nt, ".e") {
+			nt += ".0"
+		}
+		return nt, nt != text
+	}
+	return "", false
+}
+
+func c15NumberPairs(c *Ctx, p *gProg, newDir func() string) []*c15Pair {
+	r := c.Res
+	var out []*c15Pair
+	for _, class := range []string{"number-nearby", "number-nearby"} {
+		for try := 0; try < 6; try++ {
+			base, call, bind, t, tree, ok := c15LiteralBaseOf(c.Rng, p, c15NumTypes, c15GenNum)
+			if !ok {
+				r.hist("edit-not-applicable:" + class)
+				break
+			}
+			edited := tree.clone()
+			var sc []*c15Lit
+			edited.scalars(&sc)
+			if len(sc) == 0 {
+				continue
+			}
+			n := sc[c.Rng.Intn(len(sc))]
+			nt, ok := c15Nearby(c.Rng, n.text)
+			if !ok {
+				continue
+			}
+			old := n.text
+			n.text = nt
+			pa, pb := base.clone(), base.clone()
+			if !c15SetBind(pa, call, bind, tree.String()) || !c15SetBind(pb, call, bind, edited.String()) {
+				continue
+			}
+			ca, err := c15Compile(newDir(), pa)
+			if err != nil {
+				r.hist("edited-program-rejected:" + class + "(original)")
+				continue
+			}
+			cb, err := c15Compile(newDir(), pb)
+			if err != nil {
+				r.hist("edited-program-rejected:" + class)
+				continue
+			}
+			kind := "int"
+			if strings.ContainsAny(old, ".e") {
+				kind = "float"
+			}
+			r.hist("number-nearby:" + kind)
+			out = append(out, &c15Pair{class, "", true, fmt.Sprintf("argument %s (%s) of call #%d: %s -> %s", bind, t, call, old, nt), false, ca, cb, pa, pb})
+			break
+		}
+	}
+	return out
 }
